@@ -102,6 +102,18 @@ class Link(object):
             os.close(self.peer_fd)
             self.peer_fd = None
 
+    def peer_gone(self):
+        """after peer_close(): the peer's end disappears altogether (a write towards it is refused)"""
+        if self.peer_sock is not None:
+            try:
+                self.peer_sock.shutdown(socket.SHUT_RDWR)
+            except OSError:
+                pass
+            self.peer_sock.close()
+        elif self.peer_fd is not None:
+            os.close(self.peer_fd)
+            self.peer_fd = None
+
     def peer_received(self, n=None):
         if self.pup:
             if n is not None:
